@@ -35,14 +35,16 @@ ASSUMPTIONS = [
     "array lengths are <= 2^63 (hypothesis of the bounds theorems; an array of more than 2^63 elements would make 2^64-1 a valid index)",
     "a build_unwrap* Conditional (one case = prelude.panic(msg), other case = identity) panics iff the sum has the other tag",
     "HUGR dataflow: a straight-line block computes its outputs from its inputs by evaluating nodes in dependency order",
+    "borrow discipline (intended, not a defect): a plain assignment xs[i] = v on an array whose elements are non-copyable lowers to a bare "
+    "`return`, which panics unless cell i is currently lent (setitem_spec: notBorrowed); writes to copyable elements use `set`",
     "ArrayIter.__next__ is Guppy source executed under CPython against shims (Guppy's claim that its source means what Python means is C03)",
 ]
 UNMODELLED = [
     "the runtime's implementation of borrow_array (hugr-llvm / selene): assumed, not verified",
     "frozenarray (immutable, classical), array.__new__ from list comprehension internals, array `scan`/`repeat`/`to_array`/`from_array` conversions",
     "comptime array access (Python lists; C21)",
-    "the generator loop structure around the comprehension body (TailLoop/Conditional plumbing; covered by C03's CFG/loop modelling) — "
-    "only the loop body's op list, the initial new_all_borrowed/0 and the loop-carried wiring positions are extracted",
+    "comprehensions with several generators or `if` guards (one generator, no guard is extracted: TailLoop, __next__ call, Conditional "
+    "cases, tags, carried-value wiring, body, result port); the semantics of TailLoop/Conditional themselves are assumed",
 ]
 TRUSTED_EXTRA = [
     "harness/props/c19_ssa.py: extraction of op lists and wiring from the in-memory Hugr (node order = emission order)",
@@ -54,7 +56,7 @@ MANIFEST = {
     "index (negatives via itousize >= 2^63 >= n); a second borrow of a lent element panics and other cells are unaffected; a "
     "borrowing call on xs[i] writes the callee's result back to exactly index i; unpacking gives left targets xs[:l], starred the "
     "middle slice, right targets xs[n-r:] in order; ArrayIter yields elements 0..n-1 once each in order and the final "
-    "discard_all_borrowed succeeds; the comprehension loop builds the array in generation order; sequences of classical reads/writes "
+    "discard_all_borrowed succeeds; the comprehension loop AS LOWERED (TailLoop plumbing extracted from the Hugr: init values, __next__ call, break/continue tags, carried wiring, body, result port) evaluates to [g x | x in xs] in index order (comp_order_loop); sequences of classical reads/writes "
     "refine Python list semantics and sequences of borrows/returns refine the list + lent-flag reference model (induction). Tied to /repo every run: the op lists with wiring are extracted from the Hugr the REAL "
     "compiler produces for probe programs and (a) proved equal to the model's emission by `decide` in a regenerated Gen file, "
     "(b) compared for generated pattern shapes through the driver, (c) interpreted on random inputs against Python-list semantics; "
@@ -428,6 +430,190 @@ def _all_blocks(h, fn):
     return sorted(out, key=lambda n: n.idx)
 
 
+def _origin(h, inp_node, src, memo=None):
+    """symbolic origin of a wire inside one dataflow container: ('in', k) | ('proj', term, k) | ('pack', [terms]) |
+    ('op', opname, node idx, port); tuple unpack/pack pairs are simplified (beta: proj(pack ts, k) = ts[k]; eta:
+    pack[proj(t,0..n-1)] = t)"""
+    import hugr.ops as ops
+    import c19_ssa as S
+    node, port = src
+    if node == inp_node:
+        return ("in", port)
+    op = h[node].op
+    if isinstance(op, ops.UnpackTuple):
+        s0 = S._src(h, node, 0)
+        t = _origin(h, inp_node, s0) if s0 is not None else ("?",)
+        if t[0] == "pack" and port < len(t[1]):
+            return t[1][port]
+        return ("proj", t, port, S._n_value_outputs(h, node))
+    if isinstance(op, ops.MakeTuple):
+        n = S._n_value_inputs(h, node)
+        ts = []
+        for i in range(n):
+            si = S._src(h, node, i)
+            ts.append(_origin(h, inp_node, si) if si is not None else ("?",))
+        if n > 0 and all(t[0] == "proj" and t[2] == i and t[3] == n and t[1] == ts[0][1] for i, t in enumerate(ts)):
+            return ts[0][1]
+        return ("pack", ts)
+    return ("op", S.op_name(op), node.idx, port)
+
+
+def extract_comp_loop(h, fname):
+    """the comprehension loop of `fname` as (initLen, initCount, arrPort, countPort, nonePass, body prog, breakTag,
+    contTag, resultPort) + a list of structural problems (empty when the plumbing is as modelled)"""
+    import hugr.ops as ops
+    import c19_ssa as S
+    problems = []
+    fn = S.find_func(h, fname)
+    outer = None
+    for b in _all_blocks(h, fn):
+        if any(S.op_name(h[k].op) == "collections.borrow_arr.new_all_borrowed" for k in S.children(h, b)):
+            outer = b
+    if outer is None:
+        raise ValueError("no block with new_all_borrowed")
+    oks = S.children(h, outer)
+    o_in, o_out = oks[0], oks[1]
+    loops = [k for k in oks if isinstance(h[k].op, ops.TailLoop)]
+    if len(loops) != 1:
+        raise ValueError(f"{len(loops)} TailLoops next to new_all_borrowed")
+    T = loops[0]
+    top = h[T].op
+    nj, nr = len(top.just_inputs), len(top.rest)
+    if nj != 1:
+        problems.append(f"TailLoop has {nj} just_inputs (expected 1: the iterator)")
+    # loop inputs
+    init_len = init_count = arr_port = count_port = None
+    for k in range(nj + nr):
+        s0 = S._src(h, T, k)
+        if s0 is None:
+            problems.append(f"loop input {k} unconnected")
+            continue
+        sop = h[s0[0]].op
+        nm = S.op_name(sop)
+        if k < nj:
+            t = _origin(h, o_in, s0)
+            if not (t[0] == "op" and t[1] == "Call"):
+                problems.append(f"iterator input of the loop is not the result of a call (__iter__): {t}")
+            else:
+                cs = S._src(h, [n for n in h if n.idx == t[2]][0], S._n_value_inputs(h, [n for n in h if n.idx == t[2]][0]))
+                callee = getattr(h[cs[0]].op, "f_name", "?") if cs else "?"
+                if not callee.endswith("__iter__"):
+                    problems.append(f"iterator input of the loop comes from a call of {callee}")
+        elif nm == "collections.borrow_arr.new_all_borrowed":
+            arr_port, init_len = k - nj, S._len_arg(sop)
+        elif isinstance(sop, ops.LoadConst):
+            count_port, init_count = k - nj, S._int_const(S._const_of(h, s0[0]))
+        else:
+            problems.append(f"loop input {k} comes from {nm}")
+    # loop body
+    lks = S.children(h, T)
+    l_in, l_out = lks[0], lks[1]
+    nexts = [k for k in lks if isinstance(h[k].op, ops.Call)]
+    conds = [k for k in lks if isinstance(h[k].op, ops.Conditional)]
+    if len(nexts) != 1 or len(conds) != 1:
+        raise ValueError(f"loop body has {len(nexts)} calls and {len(conds)} conditionals")
+    N, C = nexts[0], conds[0]
+    cs = S._src(h, N, S._n_value_inputs(h, N))
+    callee = getattr(h[cs[0]].op, "f_name", "?") if cs else "?"
+    if not callee.endswith("__next__"):
+        problems.append(f"the loop calls {callee}, not __next__")
+    if _origin(h, l_in, S._src(h, N, 0)) != ("in", 0):
+        problems.append(f"__next__ is not called on the loop's iterator input: {_origin(h, l_in, S._src(h, N, 0))}")
+    if S._src(h, C, 0) != (N, 0):
+        problems.append("the Conditional does not branch on the result of __next__")
+    ncar = h.num_in_ports(C) - 1
+    for i in range(1, 1 + nr):
+        si = S._src(h, C, i)
+        if si is None or _origin(h, l_in, si) != ("in", nj + i - 1):
+            problems.append(f"Conditional input {i} is not carried value {i - 1}")
+    for i in range(1 + nr):
+        if S._src(h, l_out, i) != (C, i):
+            problems.append(f"loop output {i} is not Conditional output {i}")
+    cases = [c for c in S.children(h, C) if isinstance(h[c].op, ops.Case)]
+    if len(cases) != 2:
+        raise ValueError(f"{len(cases)} cases")
+    c_none, c_some = cases
+    # nothing-case
+    nk = S.children(h, c_none)
+    n_in, n_out = nk[0], nk[1]
+    t0 = S._src(h, n_out, 0)
+    break_tag = None
+    if t0 is None or not isinstance(h[t0[0]].op, ops.Tag):
+        problems.append("nothing-case: first output is not a Tag")
+    else:
+        break_tag = h[t0[0]].op.tag
+        if h.num_in_ports(t0[0]) and any(S._src(h, t0[0], i) is not None for i in range(h.num_in_ports(t0[0]))):
+            problems.append("nothing-case: the break Tag has a payload")
+    none_pass = []
+    for i in range(1, 1 + nr):
+        t = _origin(h, n_in, S._src(h, n_out, i))
+        none_pass.append(t[1] if t[0] == "in" else -1)
+    # some-case
+    B = S.Block(h, c_some)
+    sk = S.children(h, c_some)
+    s_in, s_out = sk[0], sk[1]
+    t1 = S._src(h, s_out, 0)
+    cont_tag = None
+    if t1 is None or not isinstance(h[t1[0]].op, ops.Tag):
+        problems.append("some-case: first output is not a Tag")
+    else:
+        cont_tag = h[t1[0]].op.tag
+        tt = _origin(h, s_in, S._src(h, t1[0], 0)) if S._src(h, t1[0], 0) else ("?",)
+        if not (tt[0] == "proj" and tt[1] == ("in", 0) and tt[2] == 1):
+            problems.append(f"some-case: the continue Tag does not carry the iterator returned by __next__: {tt}")
+    calls = [(idx, ins) for idx, ins in enumerate(B.instrs) if ins[0] == "call"]
+    if len(calls) != 1:
+        raise ValueError(f"some-case has {len(calls)} calls (element expression)")
+    cidx, cins = calls[0]
+    cnode = B.nodes[cidx]
+    ta = _origin(h, s_in, S._src(h, cnode, 0))
+    if not (ta[0] == "proj" and ta[1] == ("in", 0) and ta[2] == 0):
+        problems.append(f"some-case: the element expression is not applied to the element returned by __next__: {ta}")
+    starts, nxt = [], B.n_in
+    for ins in B.instrs:
+        starts.append(nxt)
+        nxt += ins[3]
+    elt_wire = starts[cidx]
+    rel = [i for i, ins in enumerate(B.instrs) if ins[0] in ("itousize", "return", "const", "iadd")]
+    body = _sub_prog((B.n_in, B.instrs, B.outs), rel, list(range(1, 1 + nr)) + [elt_wire], B.outs)
+    # result port
+    res = S._src(h, o_out, 1)
+    result_port = res[1] if res is not None and res[0] == T else -1
+    return (int(init_len) if init_len and str(init_len).isdigit() else -1, init_count if init_count is not None else -1,
+            arr_port if arr_port is not None else -1, count_port if count_port is not None else -1, none_pass, body,
+            break_tag if break_tag is not None else -1, cont_tag if cont_tag is not None else -1, result_port), problems
+
+
+def py_run_comp(L, xs, g):
+    """interpret an extracted comprehension loop on the array xs (all present), element expression g; iteration is
+    Python's own (index order) — the iterator itself is tied separately (ArrayIter.__next__)"""
+    init_len, init_count, arr_port, count_port, none_pass, body, break_tag, cont_tag, result_port = L
+    if {arr_port, count_port} != {0, 1} or break_tag != 1 or cont_tag != 0:
+        return ("panic", "illTyped")
+    carried = [None, None]
+    carried[arr_port] = ("arr", tuple([None] * init_len))
+    carried[count_port] = ("int", init_count)
+    for x in xs:
+        r = py_run(body, carried + [("elem", g(x))])
+        if r[0] == "panic":
+            return r
+        carried = list(r[1])
+        if len(carried) != 2:
+            return ("panic", "illTyped")
+    outs = []
+    for k in none_pass:
+        if not (0 <= k < len(carried)):
+            return ("panic", "illTyped")
+        outs.append(carried[k])
+    if not (0 <= result_port < len(outs)):
+        return ("panic", "illTyped")
+    return ("ok", [outs[result_port]])
+
+
+def comp_loop_sexp(L):
+    return (f"(comploop {L[0]} {L[1]} {L[2]} {L[3]} ({' '.join(map(str, L[4]))}) {_sexp(L[5])} {L[6]} {L[7]} {L[8]})")
+
+
 def extract_fixed():
     """lower the fixed probes; returns dict name -> prog and a list of (description, ok) structural checks"""
     import feed
@@ -482,6 +668,10 @@ def extract_fixed():
             outer = [(i[0], tuple(i[1])) for i in B.instrs if i[0] in ("new_all_borrowed", "const")]
     progs["comp#body"] = body
     progs["comp#outer"] = outer
+    try:
+        progs["comp#loop"], progs["comp#loop_problems"] = extract_comp_loop(h, "comp_classical")
+    except Exception as e:  # noqa: BLE001
+        progs["comp#loop"], progs["comp#loop_problems"] = None, [f"{type(e).__name__}: {e}"]
     feed.unload(m)
     return progs
 
@@ -573,6 +763,14 @@ def translate(ctx):
         lines.append(f"/-- `up` with l={l} r={r} starred={s} n={nlen} elements {kind} -/")
         lines.append(f"def unpack{k} : Prog := {_lean_prog(prog)}")
         lines.append(f"def unpack{k}Shape : Nat × Nat × Bool × Nat := ({l}, {r}, {'true' if s else 'false'}, {nlen})")
+    L = fixed.get("comp#loop")
+    if L is None:
+        L = (0, 0, 0, 0, [], (0, [("shape?", [], [], 0)], []), 0, 0, 0)
+    nat = lambda x: str(x) if isinstance(x, int) and x >= 0 else "4294967295"
+    lines.append("/-- the comprehension loop of `array(elt_fn(x) for x in xs)`, `xs : array[int, 4]` -/")
+    lines.append(f"def compLoop : CompLoop := ⟨{nat(L[0])}, {L[1] if isinstance(L[1], int) else 0}, {nat(L[2])}, {nat(L[3])}, "
+                 f"[{', '.join(nat(x) for x in L[4])}], {_lean_prog(L[5])}, {nat(L[6])}, {nat(L[7])}, {nat(L[8])}⟩")
+    lines.append("def compLoopLen : Nat := 4")
     lines += ["", "end GuppyVerif.ArraySem.Gen", ""]
     path = os.path.join(vlib.LEAN, "GuppyVerif", "Gen", "C19Lowering.lean")
     new = "\n".join(lines)
@@ -824,7 +1022,7 @@ def _sec0(ctx, fixed, corpus):
         "inout_affine_custom": "(emit inout use)",
     }
     names = list(emit_reqs)
-    extra_reqs = ["(emit discard 0)", "(emit discard 1)", "(emit compbody)"]
+    extra_reqs = ["(emit discard 0)", "(emit discard 1)", "(emit compbody)", "(emit comploop 4)"]
     replies = yield [emit_reqs[k] for k in names] + extra_reqs
     model_emit = dict(zip(names, replies))
     for k in names:
@@ -861,7 +1059,16 @@ def _sec0(ctx, fixed, corpus):
         if sorted(map(repr, got)) != sorted(map(repr, exp)):
             ctx.broke(f"T-obj: array ops in the compiled ArrayIter.__next__ ({nm}) are {got}, expected {exp}")
     # discard emission
-    disc0, disc1, compbody = replies[len(names):]
+    disc0, disc1, compbody, comploop = replies[len(names):]
+    # the whole comprehension loop (plumbing + body + initial values + result port)
+    L = fixed.get("comp#loop")
+    ctx.count({"probe": "comploop", "loop": comp_loop_sexp(L) if L else None, "problems": fixed.get("comp#loop_problems")},
+              nontrivial=True, kind="probe:comploop")
+    for pr in fixed.get("comp#loop_problems") or []:
+        ctx.broke(f"T-obj: comprehension loop plumbing differs from the model: {pr}")
+    if L is None or comp_loop_sexp(L) != comploop:
+        ctx.broke(f"T-obj: comprehension loop extracted from the Hugr differs from emitCompLoop 4 "
+                  f"(real={comp_loop_sexp(L) if L else None} model={comploop})")
     if disc0 != "(prog 1 () ())" or disc1 != "(prog 1 ((discard_all_borrowed () (0) 0)) ())":
         ctx.broke(f"model emission of discard changed: {disc0} / {disc1}")
     # comprehension body
@@ -1136,7 +1343,29 @@ def _sec5(ctx, fixed, corpus):
         es = [rng.randrange(0, 100) for _ in range(k)]
         metas.append((nlen, es))
         lines.append(f"(comp {nlen} ({' '.join(map(str, es))}))")
+    # whole-loop runs: the EXTRACTED loop interpreted in Python vs Python's list comprehension, and vs the Lean run
+    L = fixed.get("comp#loop")
+    loop_cases = []
+    if L is not None and L[0] == 4:
+        for _ in range(ctx.n(10, 200)):
+            xs = [rng.randrange(0, 100) for _ in range(4)]
+            loop_cases.append(xs)
+            lines.append(f"(comploop 4 {cells_sexp(xs)} 5)")
     reps = yield lines
+    for xs, model in zip(loop_cases, reps[len(metas):]):
+        got = py_run_comp(L, xs, lambda x: x + CALL_OFFSET)
+        want = ("ok", [("arr", tuple(x + CALL_OFFSET for x in xs))])
+        ctx.count({"comploop": xs}, nontrivial=True, kind="comploop-run")
+        if unknown_op(got):
+            ctx.broke(f"comprehension loop: extracted body contains an operation without modelled semantics: {got[1]}")
+        elif got != want:
+            ctx.violation(f"input:comprehension xs={xs}", f"array(elt_fn(x) for x in {xs}) through the extracted loop "
+                          f"{comp_loop_sexp(L)} gives {show_result(got)}, Python gives {show_result(want)}",
+                          {"case": {"kind": "comploop", "xs": xs}, "extracted": comp_loop_sexp(L), "real": show_result(got),
+                           "oracle": show_result(want)})
+        if model != show_result(want):
+            ctx.broke(f"Lean runComp (emitCompLoop 4) on {xs}: {model}, expected {show_result(want)}")
+    reps = reps[:len(metas)]
     body_prog = (3, [("itousize", [], [0], 1), ("return", [], [1, 3, 2], 1), ("const", ["1"], [], 1), ("iadd", [], [0, 5], 1)], [4, 6])
     for (nlen, es), line, model in zip(metas, lines, reps):
         # real: the extracted body (checked equal to body_prog above) folded in Python
